@@ -193,6 +193,9 @@ def gen_case(r):
     ats = asets(r)
     pols = [policy(r) for _ in range(1 + r.below(3))]
     pol0 = policy(r) if r.chance(1, 3) else "none"
+    # import policy rejecting one ORIGIN value: re-announcing a (source, prefix, path-id) with another
+    # attribute set flips the path between filtered and visible
+    imp = "(origin %d)" % r.pick([0, 1, 2]) if r.chance(2, 5) else "none"
     live = {}                                  # (src, pfx, rpid) -> True ; rough RIB picture
 
     def ann(src=None, pfx=None):
@@ -212,15 +215,15 @@ def gen_case(r):
     def held():
         return set(p for (_, p, _) in live)
 
-    # LLGR stale periods are outside the property's quantifier (S16 is kept as a corpus case and a
-    # recorded finding); the generated stream does not use the op
-    llgr_ok = False
+    # LLGR stale periods: every route of the source is re-advertised with LLGR_STALE (S16)
+    llgr_ok = True
     pre = [ann() for _ in range(r.pick([0, 0, 1, 2, 4]))]
     ops = []
     n = r.pick([5, 10, 20, 40, 60])
     while len(ops) < n:
         kind = r.weighted([("ann", 30), ("wd", 14), ("deliver", 20), ("flush", 12), ("down", 4), ("reset", 6),
-                           ("reuse", 10), ("window", 6), ("llgr", 1 if llgr_ok else 0)])
+                           ("reuse", 10), ("window", 6), ("llgr", 2 if llgr_ok else 0),
+                           ("toggle", 10 if imp != "none" else 3), ("nhflap", 4)])
         if kind == "ann":
             ops.append(ann())
         elif kind == "wd":
@@ -240,6 +243,15 @@ def gen_case(r):
             peers = [i for i, x in enumerate(srcs) if x.startswith("(peer")]
             if peers:
                 ops.append("(llgr %d)" % r.pick(peers))
+        elif kind == "toggle":
+            # re-announce a live (source, prefix, path-id), best or not, with another attribute set
+            if live:
+                s_, p_, rp_ = r.pick(sorted(live))
+                ops.append("(ann %d %d %d %d (v4 %d))" % (s_, p_, rp_, r.below(len(ats)), r.pick(NHS)))
+            else:
+                ops.append(ann())
+        elif kind == "nhflap":
+            ops.append("(nh %d %s)" % (r.pick(NHS), r.pick(["f", "f", "t"])))
         elif kind == "reuse":
             # remove the last path of a prefix and announce a prefix the RIB does not hold (it gets the
             # freed id when both live in the same shard) before the next flush
@@ -263,8 +275,8 @@ def gen_case(r):
             p = r.below(len(idxs))
             for _ in range(2 + r.below(2)):
                 ops.append(ann(None, p))
-    return "(c01 (shards %d) %s %s (pol0 %s) (srcs %s) (pfxs %s) (asets %s) (pols %s) (pre%s) (ops%s))" % (
-        k, ctx, sess, pol0, " ".join(srcs), " ".join(pfxs), " ".join(ats), " ".join(pols),
+    return "(c01 (shards %d) %s %s (pol0 %s) (imp %s) (srcs %s) (pfxs %s) (asets %s) (pols %s) (pre%s) (ops%s))" % (
+        k, ctx, sess, pol0, imp, " ".join(srcs), " ".join(pfxs), " ".join(ats), " ".join(pols),
         "".join(" " + o for o in pre), "".join(" " + o for o in ops))
 
 
